@@ -1,1 +1,99 @@
-/-! Property theorems for C07 (none yet). -/
+import MirVerif.Lemmas.CArithFold
+import MirVerif.Lemmas.CArithBf
+import MirVerif.Lemmas.BridgeC07
+/-! # C07 — C programs compiled by c2mir behave as under the reference compiler.
+Property theorems only (the proved fragment: conversions, opcode selection, compile-time folding,
+bit-field access, small block moves).  The parser, declaration checker, initialiser flattening and
+statement lowering are tested (checks/c07.py), not proved. -/
+namespace MirVerif.CArith
+open MirVerif MirVerif.Gen.C07
+
+/-- **Integer promotions.**  For every integer type (standard or enumerated) the CURRENT
+`integer_promotion` of c2mir.c returns exactly the type C11 6.3.1.1p2 prescribes. -/
+theorem promotion_table (t : IType) : ofCTy (integer_promotion t.toCTy) = some (promote t) := by
+  have h := gen_promotion_table
+  rw [List.all_eq_true] at h
+  simpa using h t (IType.mem_all t)
+
+/-- **Usual arithmetic conversions.**  For every pair of integer types the CURRENT
+`arithmetic_conversion` returns a type with the width and signedness of the C11 6.3.1.8 common
+real type … -/
+theorem usual_arith_table (t1 t2 : IType) :
+    ∃ r, ofCTy (arithmetic_conversion t1.toCTy t2.toCTy) = some r ∧ sameRepr r (usualArith t1 t2) := by
+  have h := gen_usual_arith_table
+  rw [List.all_eq_true] at h
+  have h1 := h t1 (IType.mem_all t1)
+  rw [List.all_eq_true] at h1
+  have h2 := h1 t2 (IType.mem_all t2)
+  cases hc : ofCTy (arithmetic_conversion t1.toCTy t2.toCTy) with
+  | none => rw [hc] at h2; cases h2
+  | some r => rw [hc] at h2; exact ⟨r, rfl, of_decide_eq_true h2⟩
+
+/-- … and it is literally the C type except that c2mir answers `unsigned long` where C says
+`unsigned long long` (`unsigned long` × `long long`; same representation on LP64). -/
+theorem usual_arith_exact (t1 t2 : IType) :
+    ofCTy (arithmetic_conversion t1.toCTy t2.toCTy) = some (usualArith t1 t2) ∨
+    (ofCTy (arithmetic_conversion t1.toCTy t2.toCTy) = some .ulong ∧ usualArith t1 t2 = .ullong) := by
+  have h := gen_usual_arith_exact
+  rw [List.all_eq_true] at h
+  have h1 := h t1 (IType.mem_all t1)
+  rw [List.all_eq_true] at h1
+  have h2 := h1 t2 (IType.mem_all t2)
+  simpa using h2
+
+/-- signedness, bit size and MIR data type c2mir assigns to every integer type are those of LP64 -/
+theorem type_repr_table (t : IType) :
+    ((signed_integer_type_p t.toCTy ≠ 0) = (t.signed = true)) ∧ int_bit_size t.toCTy = (t.width : Int) ∧
+    get_mir_type t.toCTy = mirTypeOf t := by
+  have h1 := gen_signed_table; have h2 := gen_width_table; have h3 := gen_mir_type_table
+  rw [List.all_eq_true] at h1 h2 h3
+  exact ⟨of_decide_eq_true (h1 t (IType.mem_all t)), of_decide_eq_true (h2 t (IType.mem_all t)),
+    of_decide_eq_true (h3 t (IType.mem_all t))⟩
+
+theorem arith_of_promoted (t : IType) (ht : promote t = t) : t ∈ IType.arith := by
+  cases t <;> first | decide | (exact absurd ht (by decide))
+
+/-- **Opcode selection.**  For every binary operator (and its compound-assignment / increment
+forms) and every type operands are converted to, the CURRENT `get_mir_type_insn_code` selects the
+MIR instruction `insnFor` names (signed vs unsigned division, modulo, right shift; 32- vs 64-bit). -/
+theorem insn_table (o : BinOp) (t : IType) (ht : promote t = t) (n : Int) (hn : n ∈ nodesOf o) :
+    insnName (get_mir_type_insn_code t.toCTy n) = some (opName (insnFor o t).1 (insnFor o t).2) := by
+  have h := gen_insn_table
+  rw [List.all_eq_true] at h
+  have h1 := h o (BinOp.mem_all o)
+  rw [List.all_eq_true] at h1
+  have h2 := h1 t (arith_of_promoted t ht)
+  rw [List.all_eq_true] at h2
+  simpa using h2 n hn
+
+/-- conversion of integer values at compile time (`cast_value`) is the C conversion, for every
+target type except `_Bool` … -/
+theorem cast_value_meets_c (t : IType) (ht : t.std ≠ .bool) (x : W64) : castValue t x = cConv t x := by
+  have hb : t ≠ .bool := by intro e; subst e; exact ht rfl
+  have e8s : ∀ x : W64, (x.setWidth 8).signExtend 64 = wrapI 64 (x.toInt.bmod (2 ^ 8)) := fun x => by
+    apply eq_wrapI; rw [BitVec.toInt_signExtend_of_le (by decide), BitVec.toInt_setWidth]
+    rw [Int.bmod_bmod_of_dvd (by decide)]
+  have e16s : ∀ x : W64, (x.setWidth 16).signExtend 64 = wrapI 64 (x.toInt.bmod (2 ^ 16)) := fun x => by
+    apply eq_wrapI; rw [BitVec.toInt_signExtend_of_le (by decide), BitVec.toInt_setWidth]
+    rw [Int.bmod_bmod_of_dvd (by decide)]
+  have e32s : ∀ x : W64, (x.setWidth 32).signExtend 64 = wrapI 64 (x.toInt.bmod (2 ^ 32)) := fun x => by
+    apply eq_wrapI; rw [BitVec.toInt_signExtend_of_le (by decide), BitVec.toInt_setWidth]
+    rw [Int.bmod_bmod_of_dvd (by decide)]
+  have e64s : ∀ x : W64, x = wrapI 64 (x.toInt.bmod (2 ^ 64)) := fun x => by
+    apply eq_wrapI; rw [Int.bmod_bmod]; exact (BitVec.toInt_bmod_cancel x).symm
+  have eu : ∀ (k : Nat) (x : W64), k ≤ 64 → (x.setWidth k).setWidth 64 = wrapN 64 (x.toNat % 2 ^ k) := fun k x hk => by
+    apply eq_wrapN
+    simp only [BitVec.toNat_setWidth]
+    have : 2 ^ k ≤ 2 ^ 64 := Nat.pow_le_pow_right (by decide) hk
+    have := Nat.mod_lt x.toNat (Nat.two_pow_pos k)
+    omega
+  have e64u : ∀ x : W64, x = wrapN 64 (x.toNat % 2 ^ 64) := fun x => by
+    apply eq_wrapN; have := x.isLt; omega
+  cases t <;> first
+    | exact absurd rfl hb
+    | (simp only [castValue, cConv, IType.width, IType.signed, IType.std, if_true, if_false,
+        Bool.false_eq_true, reduceCtorEq]
+       first | exact e8s x | exact e16s x | exact e32s x | exact e64s x
+             | exact eu 8 x (by decide) | exact eu 16 x (by decide) | exact eu 32 x (by decide) | exact e64u x)
+
+end MirVerif.CArith
